@@ -16,6 +16,7 @@
 #include "refgf.h"
 #include "cpusim.h"
 #include "visa.h"
+#include "defgen.h"
 #include <pthread.h>
 #include <link.h>
 #include <sys/wait.h>
@@ -29,7 +30,7 @@
 #include "raid.h"
 #include "mem_routines.h"
 
-#define NSC 14
+#define NSC 16
 /* per-thread arena: all memory a scenario hands to the library */
 typedef struct { uint8_t *ctx, *lvl, *out, *aux, *aux2; size_t shift; } arena_t;
 #define CTXSZ (sizeof(struct isal_zstream) + sizeof(struct inflate_state) + 4096)
@@ -37,7 +38,9 @@ typedef struct { uint8_t *ctx, *lvl, *out, *aux, *aux2; size_t shift; } arena_t;
 #define OUTSZ (1u << 18)
 #define AUXSZ (1u << 18)
 static const uint8_t *IN_TEXT, *IN_RAND, *IN_MIX, *IN_DICT; static size_t IN_N = 20000;   /* shared, read-only inputs */
-static uint8_t *cstreams[8]; static size_t cstream_len[8];                                 /* shared compressed streams for inflate */
+static uint8_t *cstreams[8]; static size_t cstream_len[8];
+#define NHOST 48
+static uint8_t *hstreams[NHOST]; static size_t hstream_len[NHOST];                          /* shared streams with one injected grammar fault each (raw deflate) */                                 /* shared compressed streams for inflate */
 
 static void prefill(arena_t *a, int pat, uint64_t seed)
 {
@@ -71,6 +74,18 @@ static uint64_t sc_inflate(arena_t *a, int v)
 	size_t off = 0, tot = 0; vrng r; vr_seed(&r, 98, 1, v); int guard = 0;
 	while (s->block_state != ISAL_BLOCK_FINISH && ++guard < 200000) { if (!s->avail_in && off < cstream_len[k]) { size_t c = 1 + vrn(&r, 400); if (c > cstream_len[k] - off) c = cstream_len[k] - off; s->next_in = cstreams[k] + off; s->avail_in = (uint32_t) c; off += c; } size_t oc = 1 + vrn(&r, 3000); s->next_out = out + tot; s->avail_out = (uint32_t) oc; int rc = isal_inflate(s); h = H(h, &rc, 4); tot += oc - s->avail_out; if (rc < 0) break; if (!s->avail_in && off >= cstream_len[k] && s->avail_out) break; }
 	h = H(h, out, tot); h = H(h, &s->crc, 4); h = H(h, &s->block_state, 4); return h;
+}
+/* streams with an injected fault (undefined code words of incomplete sets, over-subscribed sets, far distances, ...): what the decoder makes of
+ * them - status, bytes delivered - must not depend on what the inflate_state held before either (stale decode-table entries) */
+static uint64_t sc_inflate_hostile(arena_t *a, int v)
+{
+	struct inflate_state *s = (struct inflate_state *) (a->ctx + a->shift); uint64_t h = 15; int k = v % NHOST; uint8_t *out = a->out + a->shift;
+	isal_inflate_init(s); s->crc_flag = ISAL_DEFLATE;
+	if (v < NHOST) { s->next_in = hstreams[k]; s->avail_in = (uint32_t) hstream_len[k]; s->next_out = out; s->avail_out = OUTSZ - 256; int rc = isal_inflate_stateless(s); uint32_t w = (OUTSZ - 256) - s->avail_out; h = H(h, &rc, 4); if (rc >= 0) { h = H(h, &w, 4); h = H(h, out, w); } /* after an error return the position fields and whatever a kernel wrote speculatively are not output */ return h; }
+	size_t off = 0, tot = 0; vrng r; vr_seed(&r, 97, 1, v); int guard = 0, rc = 0;
+	while (s->block_state != ISAL_BLOCK_FINISH && ++guard < 200000) { if (!s->avail_in) { if (off >= hstream_len[k]) break; size_t c = 1 + vrn(&r, 600); if (c > hstream_len[k] - off) c = hstream_len[k] - off; s->next_in = hstreams[k] + off; s->avail_in = (uint32_t) c; off += c; }
+		size_t oc = 1 + vrn(&r, 3000); if (tot + oc > OUTSZ - 256) break; s->next_out = out + tot; s->avail_out = (uint32_t) oc; rc = isal_inflate(s); h = H(h, &rc, 4); if (rc < 0) break; tot += oc - s->avail_out; }
+	h = H(h, out, tot); h = H(h, &tot, sizeof tot); return h;
 }
 static uint64_t sc_hufftables(arena_t *a, int v)
 {
@@ -162,7 +177,7 @@ static uint64_t sc_reuse_inflate(arena_t *a, int v)
 }
 typedef uint64_t (*scen_fn)(arena_t *, int);
 static struct { const char *name; scen_fn fn; int nvar; int group_mask; /* variants are compared within (v & ~group_mask)==const groups: 0 = each variant only with itself */ } SC[] = {
-	{ "deflate_stateless", sc_deflate_stateless, 160, 0 }, { "deflate_streaming", sc_deflate_stream, 160, 0 }, { "inflate", sc_inflate, 16, 0 }, { "hufftables", sc_hufftables, 40, 0 }, { "dictionary", sc_dict, 64, 0 },
+	{ "deflate_stateless", sc_deflate_stateless, 160, 0 }, { "deflate_streaming", sc_deflate_stream, 160, 0 }, { "inflate", sc_inflate, 16, 0 }, { "inflate_hostile", sc_inflate_hostile, 2 * NHOST, 0 }, { "hufftables", sc_hufftables, 40, 0 }, { "dictionary", sc_dict, 64, 0 },
 	{ "erasure_code", sc_ec, 60, 0 }, { "checksums_zero_detect", sc_crc, 60, 0 }, { "raid", sc_raid, 60, 0 }, { "headers", sc_headers, 16, 0 }, { "histogram_reuse", sc_histogram_reuse, 64, 0 }, { "reuse_deflate", sc_reuse, 64, 0x30 }, { "reuse_inflate", sc_reuse_inflate, 32, 0x18 },
 };
 #define NSCEN ((int) (sizeof SC / sizeof SC[0]))
@@ -182,9 +197,14 @@ static void make_inputs(void)
 	/* compressed streams for the inflate scenarios: made with zlib so that this process has not touched the library yet */
 	for (int k = 0; k < 8; k++) { cstreams[k] = mmap(0, 65536, PROT_READ | PROT_WRITE, MAP_PRIVATE | MAP_ANONYMOUS, -1, 0); z_stream z; memset(&z, 0, sizeof z); if (deflateInit2(&z, 1 + k, Z_DEFLATED, k % 3 == 0 ? -15 : k % 3 == 1 ? 31 : 15, 8, k == 5 ? Z_FIXED : Z_DEFAULT_STRATEGY) != Z_OK) v_harness_fail("zlib"); z.next_in = (Bytef *) (k & 1 ? IN_MIX : IN_TEXT); z.avail_in = 9000 + 1000 * k; z.next_out = cstreams[k]; z.avail_out = 65536; if (deflate(&z, Z_FINISH) != Z_STREAM_END) v_harness_fail("zlib deflate"); cstream_len[k] = z.total_out; deflateEnd(&z); mprotect(cstreams[k], 65536, PROT_READ); }
 	mprotect(t, 4 * 65536, PROT_READ);
+	{ static const int pref[] = { DGF_UNASSIGNED_DIST, DGF_UNASSIGNED, DGF_UNASSIGNED_DIST, DGF_NODIST_MATCH, DGF_UNASSIGNED, DGF_BAD_DISTSYM };
+	  uint8_t *exp = malloc(70000); uint8_t *pool = mmap(0, (size_t) NHOST * 65536, PROT_READ | PROT_WRITE, MAP_PRIVATE | MAP_ANONYMOUS, -1, 0); uint8_t *tmp = malloc(200000);
+	  for (int i = 0; i < NHOST; i++) { defgen_t g; memset(&g, 0, sizeof g); vrng r2; vr_seed(&r2, 4242, 7, i); g.fault = i % 2 ? pref[(i / 2) % 6] : 1 + (i / 2) % (DGF_NFAULTS - 1); g.max_blocks = 3; g.want_deep = i % 3 == 0;
+		size_t n = defgen(&g, &r2, tmp, 200000, exp, 30000); if (n > 65000) n = 65000; hstreams[i] = pool + (size_t) i * 65536; memcpy(hstreams[i], tmp, n); hstream_len[i] = n; }
+	  mprotect(pool, (size_t) NHOST * 65536, PROT_READ); free(exp); free(tmp); }
 }
 /* ------------------------------------------------------------------ prefill / address / reuse differential */
-static long st_runs, st_scen[NSCEN];
+static long st_runs, st_scen[NSCEN], st_faults;
 static void mode_prefill(void)
 {
 	arena_t a = new_arena(), b = new_arena();
@@ -201,7 +221,7 @@ static void mode_prefill(void)
 			prefill(ar, pat, vopt.seed * 1000 + idx);
 			v_setcase(idx, "scenario %s variant %d prefill=%s arena=%d shift=%zu", SC[sc].name, vv, pat == 0 ? "00" : pat == 1 ? "FF" : pat == 2 ? "A5" : pat == 3 ? "random" : "words=9", where, ar->shift);
 			uint64_t d;
-			if (V_TRY(120)) { d = SC[sc].fn(ar, vv); V_END; } else { v_describe_fault(); char key[200]; snprintf(key, sizeof key, "fault:%s:%s", SC[sc].name, v_fault_sym()); v_viol(key, "%s", v_fault_txt); continue; }
+			if (V_TRY(20)) { d = SC[sc].fn(ar, vv); V_END; } else { v_describe_fault(); char key[200]; snprintf(key, sizeof key, "fault:%s:%s", SC[sc].name, v_fault_sym()); v_viol(key, "%s", v_fault_txt); if (++st_faults >= 3) goto done; continue; }
 			st_runs++; st_scen[sc]++;
 			if (!have) { ref = d; have = 1; }
 			else if (d != ref) { char key[200]; snprintf(key, sizeof key, "depends-on-%s:%s", where && pat == 0 ? "address" : "prior-contents", SC[sc].name); v_viol(key, "result digest %016llx differs from the first run %016llx (first run: zero-filled arena 0)", (unsigned long long) d, (unsigned long long) ref); break; }
@@ -209,15 +229,16 @@ static void mode_prefill(void)
 		/* reuse groups: all history kinds of the same (level, wrapper, ...) must agree with the fresh one */
 		if (SC[sc].group_mask && (v & SC[sc].group_mask) == 0) {
 			a.shift = 0; prefill(&a, 0, 1); uint64_t fresh = 0; int okf = 0;
-			if (V_TRY(120)) { fresh = SC[sc].fn(&a, v); okf = 1; V_END; }
+			if (V_TRY(20)) { fresh = SC[sc].fn(&a, v); okf = 1; V_END; }
 			for (int hk = 1; okf && hk < 4; hk++) { int v2 = v | (SC[sc].group_mask & (hk * (SC[sc].group_mask & -SC[sc].group_mask))); if (v2 >= SC[sc].nvar) continue; prefill(&a, 0, 1); uint64_t d = 0;
 				v_setcase(idx, "scenario %s variant %d vs fresh variant %d (history kind %d: 1 = use,reset,reuse keeping user fields; 2 = use,reset,re-set user fields; 3 = use,init,reuse)", SC[sc].name, v2, v, hk);
-				if (V_TRY(120)) { d = SC[sc].fn(&a, v2); V_END; } else continue; st_runs++;
+				if (V_TRY(20)) { d = SC[sc].fn(&a, v2); V_END; } else continue; st_runs++;
 				if (d != fresh) { char key[200]; snprintf(key, sizeof key, "reused-context-differs:%s:history%d", SC[sc].name, hk); v_viol(key, "a context that was used and then %s does not behave like a fresh one", hk == 3 ? "re-initialised" : "reset"); } }
 		}
 		v_distinct(v_hash64(&idx, 8, sc));
 		if (v_nsamples < 3 && have) v_sample("%s -> 10 runs (5 prefills x 2 addresses) gave digest %016llx", v_case, (unsigned long long) ref);
 	}
+done:
 	for (int sc = 0; sc < NSCEN; sc++) v_count("scenario_runs", SC[sc].name, st_scen[sc]);
 	v_stat("evaluations", st_runs);
 }
@@ -324,8 +345,16 @@ static long direct_variant_calls(arena_t *a)
 		} } }
 	return n;
 }
+#if defined(__SANITIZE_THREAD__)
+#define THR_CPU_LIMIT 1200
+#else
+#define THR_CPU_LIMIT 120
+#endif
+/* the threaded modes have no per-call watchdog: a library call that never returns is turned into a verdict by a process-wide CPU-time limit */
+static void thr_hang(int sig) { (void) sig; v_setcase(-1, "mode %s: the workload consumed more than %d s of CPU time (normally a few seconds): a library call does not return", vopt.mode, THR_CPU_LIMIT); v_viol("hang:threaded-workload", "CPU-time watchdog expired"); v_finish(); fflush(stdout); _exit(0); }
 static void mode_threads(int protect)
 {
+	{ struct sigaction sa; memset(&sa, 0, sizeof sa); sa.sa_handler = thr_hang; sigaction(SIGVTALRM, &sa, 0); struct itimerval it; memset(&it, 0, sizeof it); it.it_value.tv_sec = THR_CPU_LIMIT; setitimer(ITIMER_VIRTUAL, &it, 0); }
 	int nt = 16; pthread_t th[16]; static thr_arg args[16]; have_baseline = protect;
 	if (protect) {
 		long nres; const char *lv = strchr(vopt.mode, ':');
